@@ -28,9 +28,14 @@ if st:
 for v in variants:
     if a.prop and v['prop'] != a.prop: continue
     if a.k and a.k not in v['id']: continue
-    edits = v.get('edits') or [{'file': v['file'], 'old': v['old'], 'new': v['new']}]
+    edits = v.get('edits') or ([] if v.get('patch') else [{'file': v['file'], 'old': v['old'], 'new': v['new']}])
     ok_apply = True
     try:
+        if v.get('patch'):
+            pf = os.path.join(here, '..', v['patch'])
+            if subprocess.run(['git', '-C', a.repo, 'apply', '--check', pf], capture_output=True).returncode != 0:
+                print('SKIP  %-40s patch does not apply' % v['id']); continue
+            subprocess.run(['git', '-C', a.repo, 'apply', pf], check=True)
         for e in edits:
             path = os.path.join(a.repo, e['file'])
             src = open(path).read()
